@@ -690,11 +690,13 @@ func runSession(t *testing.T, cfg *sessCfg, job *sessJob, rng *mrand.Rand, sched
 				if !r.Rx.IsZero() {
 					rx = r.Rx.Sub(t0).Milliseconds()
 				}
-				rxs[sym(r.Addr)] = rx
+				if _, dup := rxs[sym(r.Addr)]; !dup { // two remote candidates at one address: inbound traffic is accounted to the first
+					rxs[sym(r.Addr)] = rx
+				}
 			}
 			prs := []map[string]any{}
 			for _, p := range s.Pairs {
-				prs = append(prs, map[string]any{"id": p.ID, "l": sym(p.L), "r": sym(p.R), "st": p.St, "nom": p.Nom, "nos": p.Nos, "reqs": p.Reqs,
+				prs = append(prs, map[string]any{"id": p.ID, "l": sym(p.L), "r": sym(p.R), "rt": p.RTyp, "st": p.St, "nom": p.Nom, "nos": p.Nos, "reqs": p.Reqs,
 					"pr": []uint64{p.Prio >> 40, (p.Prio >> 20) & 0xfffff, p.Prio & 0xfffff}})
 			}
 			pend := []map[string]any{}
